@@ -27,6 +27,12 @@ def parsePayload (s : String) : Option Payload :=
   else if s == "eq" then some .eq
   else if s == "sh" || s == "sh1" || s == "sh3" then some .short
   else if s == "bad" || s == "bad5" || s == "badp" then some .bad
+  else if s.startsWith "bv" || s.startsWith "bd" then
+    -- undecodable with a decodable prefix: the prefix plays no role
+    match hexDecode (s.drop 2).toString with
+    | some [] => none
+    | some _ => some .bad
+    | none => none
   else if s.startsWith "v" then
     match hexDecode (s.drop 1).toString with
     | some [] => none
